@@ -138,6 +138,9 @@ def cancel_sweep(sc, steps, rng, hows=('future',), stride=1, per=1):
         for g in range(1, steps + 2, stride):
             s = copy.deepcopy(sc)
             s['cancel'] = {'how': how, 'gate': g, 'x': 0, 'msg': f'msg-{how}'}
+            if how == 'exit-exc':
+                # any exception leaving the with-block, not only Exception subclasses
+                s['cancel']['exc'] = ('ValueError', 'SystemExit', 'BaseException')[g % 3]
             if how in ('exit-exc', 'exit-kbi', 'kbi-result', 'kbi-shutdown'):
                 s['user'] = dict(s.get('user') or {}, mode='with')
             for ch in choosers(per, rng):
